@@ -22,6 +22,7 @@ import (
 //	for k := range maps.Keys(m)                  →  for k := range m
 //	for v := range maps.Values(m)                →  for _, v := range m
 //	for k, v := range maps.All(m)                →  for k, v := range m
+//	for c := range slices.Chunk(xs, n) { B }     →  for i := 0; i < len(xs); i += n { e := i + n; if e > len(xs) { e = len(xs) }; c := xs[i:e]; B }
 //
 // A range over a function turns the loop body into a closure that the iterator calls; the
 // loop rules of this checker (dominance inside an iteration, loop-carried values, must-pass
@@ -130,7 +131,7 @@ func rewriteIteratorRanges(path string, src []byte) ([]byte, bool) {
 			return true
 		}
 		call, ok := rs.X.(*ast.CallExpr)
-		if !ok || len(call.Args) != 1 {
+		if !ok || (len(call.Args) != 1 && len(call.Args) != 2) {
 			return true
 		}
 		sel, ok := call.Fun.(*ast.SelectorExpr)
@@ -157,6 +158,20 @@ func rewriteIteratorRanges(path string, src []byte) ([]byte, bool) {
 		}
 		k, v := name(rs.Key), name(rs.Value)
 		if k == "?" || v == "?" {
+			return true
+		}
+		if len(call.Args) == 2 {
+			// for c := range slices.Chunk(xs, n) { B }  →  the window loop written by hand
+			if pkg+"."+sel.Sel.Name != "slices.Chunk" || rs.Value != nil || rs.Tok != token.DEFINE || k == "" || k == "_" || !simple(call.Args[0]) || !simple(call.Args[1]) {
+				return true
+			}
+			size := text(call.Args[1])
+			lo := fmt.Sprintf("ic%d_", off(rs.Pos()))
+			hi := fmt.Sprintf("ie%d_", off(rs.Pos()))
+			head := fmt.Sprintf("for %s := 0; %s < len(%s); %s += %s ", lo, lo, arg, lo, size)
+			edits = append(edits, textEdit{off(rs.Pos()), off(rs.Body.Lbrace), head})
+			edits = append(edits, textEdit{off(rs.Body.Lbrace) + 1, off(rs.Body.Lbrace) + 1, fmt.Sprintf(" %s := %s + %s; if %s > len(%s) { %s = len(%s) }; %s := %s[%s:%s];", hi, lo, size, hi, arg, hi, arg, k, arg, lo, hi)})
+			used[id.Name] = true
 			return true
 		}
 		switch pkg + "." + sel.Sel.Name {
